@@ -243,7 +243,7 @@ func (p *c12Prim) cover(q Pt, mg float64) int {
 				pt = Pt{X: q.X + mg*math.Cos(ang), Y: q.Y + mg*math.Sin(ang)}
 			}
 			lo := p.strokeHas(pt, pc, p.closed[k], false)
-			hi := lo || (p.join == 3 && p.strokeHas(pt, pc, p.closed[k], true))
+			hi := lo || ((p.join == 3 || p.join == 0) && p.strokeHas(pt, pc, p.closed[k], true))
 			allIn = allIn && lo
 			anyIn = anyIn || hi
 		}
@@ -325,7 +325,13 @@ func (p *c12Prim) strokeHas(q Pt, pc []Pt, closed bool, upper bool) bool {
 		// mitre: ratio of mitre length to width = 1/cos(phi/2), phi the turning angle
 		cosPhi := math.Max(-1, math.Min(1, d0.Dot(d1)))
 		cosHalf := math.Sqrt((1 + cosPhi) / 2)
-		if cosHalf <= 0 || 1/cosHalf > p.limit {
+		// a mitre whose ratio is within 5% of the limit may or may not be bevelled (the direction of the last
+		// chord of a flattened curve decides): lower reading bevel, upper reading mitre
+		lim := p.limit * 0.95
+		if upper {
+			lim = p.limit * 1.05
+		}
+		if cosHalf <= 0 || 1/cosHalf > lim {
 			return false
 		}
 		bis := n0.Add(n1)
